@@ -38,4 +38,4 @@ def run(ctx):
         rule="theorems of coq/Props/C15.v (unbounded) + comment-sequence oracle and correspondence on every .vcl file of "
              "the repository (as is, and decorated) x default + every single-option flip, focus programs, grammar-generated "
              "programs decorated at random subsets of the documented placeholders x sampled configurations; "
-             "1-3 comments per placeholder in mixed styles and positions (previous line / own line / same line, empty lines around), exhaustively every placeholder x 10 patterns; SCALE (gen/fmt_scale: one token / output line of 4 KiB, 64 KiB - 1, 64 KiB, 64 KiB + 1, 200 KiB as quoted / long / multi-line string, comment, identifier; conditions, concatenations and argument lists with 300 operands; 300 statements, else-if branches, cases, properties, entries, declarations; nesting 60 - always next to runs of empty lines); COMMENT TEXT (gen/decorate hostile alphabet, 22 line + 22 block classes: multi-line blocks with / without stars, indented, trailing blanks, empty lines; line comments containing or ending in /* */ // # \\\\; code; empty; > 4 KiB; tabs; multi-byte - every placeholder x one class of each family, every condition / branch placeholder of a compound-condition template x every class, own line and line of the previous token); SHAPES (gen/fmt_shapes: if alone / + else / + 1-3 else-if with and without else in every spelling, empty bodies, nested; switch with 1-3 cases +- default; sub with 0-2 statements; acl / backend / director / table with 0-3 entries, probe and backend objects; files of 1-3 declarations - 79 shapes x one comment at EVERY placeholder of the shape in block and line style, own line and line of the previous token, exhaustive); distinct = distinct (source, configuration); per-dimension counts in coverage.dimensions")
+             "1-3 comments per placeholder in mixed styles and positions (previous line / own line / same line, empty lines around), exhaustively every placeholder x 10 patterns; SCALE (gen/fmt_scale: one token / output line of 4 KiB, 64 KiB - 1, 64 KiB, 64 KiB + 1, 200 KiB as quoted / long / multi-line string, comment, identifier; conditions, concatenations and argument lists with 300 operands; 300 statements, else-if branches, cases, properties, entries, declarations; nesting 60 - always next to runs of empty lines); COMMENT TEXT (gen/decorate hostile alphabet, 22 line + 22 block classes: multi-line blocks with / without stars, indented, trailing blanks, empty lines; line comments containing or ending in /* */ // # \\\\; code; empty; > 4 KiB; tabs; multi-byte - every placeholder x one class of each family, every condition / branch placeholder of a compound-condition template x every class, own line and line of the previous token); SHAPES (gen/fmt_shapes: if alone / + else / + 1-3 else-if with and without else in every spelling, empty bodies, nested; switch with 1-3 cases +- default; sub with 0-2 statements; acl / backend / director / table with 0-3 entries, probe and backend objects; files of 1-3 declarations - 79 shapes x one comment at EVERY placeholder of the shape in block and line style, own line and line of the previous token, exhaustive); RUNS OF EMPTY LINES (gen/fmt_blank: 0-8 empty / blank-only / tab-only lines at 35 places - inside block comments at every kind of position, inside long strings, between declarations / statements / properties / entries / cases / branches, at the start and end of the file, around braces - exhaustive x 3 configurations that post-process lines); distinct = distinct (source, configuration); per-dimension counts in coverage.dimensions")
